@@ -370,7 +370,8 @@ def check_join(left, right, le, re_, is_left, variables):
 
 CSV_ZONES = ['UTC', 'Asia/Kathmandu', 'Etc/GMT+12', 'Asia/Kolkata']
 SAFE = 'qxz #;:!?()[]{}<>=&|*%$@^~`'
-DATELIKE = ['2100-02-29', '1900-02-29', '2200-02-29T00:00:00Z', '2024-02-30', '2023-13-01', '2021-00-10', '2024-02-30T10:00:00Z', '2024-01-01T25:00:00+00:00', '0000-01-01', '2024-04-31', '2023-02-29']
+DATELIKE = ['2100-02-29', '1900-02-29', '2200-02-29T00:00:00Z', '2024-02-30', '2023-13-01', '2021-00-10', '2024-02-30T10:00:00Z', '2024-01-01T25:00:00+00:00', '0000-01-01', '2024-04-31', '2023-02-29',
+            '\uff12\uff10\uff12\uff12-\uff10\uff18-\uff12\uff19', '2022-08-2\u0669', '2022-08-29T15:08:00+0\uff15:30', '2022-08-2\uff19T15:08:00Z', '2022\u201308\u201329']
 
 
 def csv_quote(s):
